@@ -1,5 +1,6 @@
-"""Shared by c15.py / c16.py / c17.py: lockscan runner (generated obligations about the lock graph and
-the guarded-by sets), scenario runner for the panel lock-step engine (harness/server/c17_*_test.go
+"""lockscan runner and generated obligations (lock graph, guarded-by sets, atomicity: used by every
+check that lists a Proofs file about coq/Gen/{LockGraph,Guards,Atomicity}.v in EXTRA_OBLIGATION_FILES),
+and, shared by c15.py / c16.py / c17.py, the scenario runner for the panel lock-step engine (harness/server/c17_*_test.go
 vs the extracted model ocaml/c17_driver.ml), output parsing."""
 import os, json, subprocess, shutil, hashlib, re
 import vlib
@@ -7,7 +8,8 @@ import vlib
 LOCKSCAN_DIR = vlib.V + '/tools/lockscan'
 LOCKSCAN_BIN = vlib.BUILD + '/lockscan_bin'
 GEN = vlib.COQ + '/Gen'
-LOCKSCAN_CMD = 'cd /verif/tools/lockscan && GOFLAGS=-mod=mod GOPROXY=off go run . -out /verif/coq/Gen /repo/internal/server /repo/internal/multiplex'
+LOCKSCAN_CMD = 'cd /verif/tools/lockscan && GOFLAGS=-mod=mod GOPROXY=off go run . -out /verif/coq/Gen -atom /repo/internal/common,/repo/internal/client /repo/internal/server /repo/internal/multiplex'
+GEN_FILES = ('LockGraph.v', 'Guards.v', 'Atomicity.v')
 
 
 def _build_lockscan():
@@ -27,6 +29,8 @@ def run_lockscan(outdir, overlay=None):
     cmd = [LOCKSCAN_BIN, '-out', outdir]
     if overlay:
         cmd += ['-overlay', overlay]
+    # LockGraph.v / Guards.v: server, multiplex; Atomicity.v: these and common, client
+    cmd += ['-atom', vlib.REPO + '/internal/common,' + vlib.REPO + '/internal/client']
     cmd += [vlib.REPO + '/internal/server', vlib.REPO + '/internal/multiplex']
     e = vlib.goenv()
     e.pop('VERIF_EXTRA_OVERLAY', None)
@@ -36,7 +40,7 @@ def run_lockscan(outdir, overlay=None):
 
 def refresh_gen():
     """Called at import time of the property modules (before the shared build): regenerate
-    coq/Gen/LockGraph.v and Guards.v from /repo's working tree.  With VERIF_EXTRA_OVERLAY (mutant
+    coq/Gen/LockGraph.v, Guards.v and Atomicity.v from /repo's working tree.  With VERIF_EXTRA_OVERLAY (mutant
     runs) the shared tree is left alone; the obligations are then checked in a private copy
     (check_generated_obligations)."""
     if os.environ.get('VERIF_EXTRA_OVERLAY'):
@@ -44,7 +48,7 @@ def refresh_gen():
     tmp = vlib.BUILD + '/work/lockscan_gen_%d' % os.getpid()
     rc, out = run_lockscan(tmp)
     try:
-        for fn in ('LockGraph.v', 'Guards.v'):
+        for fn in GEN_FILES:
             src = os.path.join(tmp, fn)
             if not os.path.exists(src):
                 continue
@@ -57,35 +61,135 @@ def refresh_gen():
         shutil.rmtree(tmp, ignore_errors=True)
 
 
-def check_generated_obligations(ctx):
-    """Re-generate the lock graph / guards honouring VERIF_EXTRA_OVERLAY and re-prove
-    Proofs/LockOrder.v about them in a private copy.  Returns dict(ok, report, edges, prefix_order, error)."""
+def _cloak_imports(rel):
+    """Modules of this development (as 'Dir/File') a Coq file imports with `From Cloak Require Import`."""
+    try:
+        txt = open('%s/%s.v' % (vlib.COQ, rel)).read()
+    except OSError:
+        return []
+    txt = re.sub(r'\(\*.*?\*\)', '', txt, flags=re.S)
+    mods = []
+    for m in re.finditer(r'From\s+Cloak\s+Require\s+(?:Import\s+|Export\s+)?(.*?)\.(?:\s|$)', txt, re.S):
+        mods += [x.replace('.', '/') for x in m.group(1).split()]
+    return mods
+
+
+def generated_closure(rel, _seen=None):
+    """If Proofs file `rel` depends (transitively) on nothing of this development but the files lockscan
+    generates, the list of hand-written files to copy next to them (dependencies first); else None."""
+    seen = _seen if _seen is not None else []
+    for m in _cloak_imports(rel):
+        if m.startswith('Gen/'):
+            if m[4:] + '.v' not in GEN_FILES:
+                return None          # Gen/Consts.v: built by the shared build only
+        elif m not in seen:
+            if generated_closure(m, seen) is None:
+                return None
+    if rel not in seen:
+        seen.append(rel)
+    return seen
+
+
+def is_generated_obligation(rel):
+    """A file of lemmas about the terms lockscan generates (and about nothing else of /repo)."""
+    cl = generated_closure(rel)
+    return cl is not None and any(m.startswith('Gen/') for f in cl for m in _cloak_imports(f))
+
+
+def _lemma_at(rel, line):
+    """Name of the lemma whose statement or proof contains the given line of coq/<rel>.v."""
+    name = None
+    try:
+        for i, ln in enumerate(open('%s/%s.v' % (vlib.COQ, rel)), 1):
+            m = re.match(r'\s*(?:Lemma|Theorem|Corollary|Example|Fact)\s+(\w+)', ln)
+            if m:
+                name = m.group(1)
+            if i >= line:
+                break
+    except OSError:
+        pass
+    return name
+
+
+_gen_cache = {}
+
+
+def check_generated_obligations(ctx, files=('Proofs/LockOrder',)):
+    """Re-generate the lock graph / guards / atomicity terms honouring VERIF_EXTRA_OVERLAY and re-prove the
+    given obligation files (hand-written lemmas about nothing but the generated terms) in a private copy,
+    so that a mutant run never touches the shared coq/Gen.  Returns dict(ok, report, edges, prefix_order,
+    error, errors=[(file, message naming the lemma)], cycles, lockscan_rc).  The generation and each file
+    are done once per check run; a failure already handed out is not reported a second time (error is ''
+    then), so that check.py's call for EXTRA_OBLIGATION_FILES and a property module's own call do not
+    produce two violations for one cause."""
     work = ctx.work + '/gen_private'
-    shutil.rmtree(work, ignore_errors=True)
-    os.makedirs(work + '/Gen'); os.makedirs(work + '/Proofs')
-    ov = os.environ.get('VERIF_EXTRA_OVERLAY')
-    rc, report = run_lockscan(work + '/Gen', ov)
-    res = dict(ok=False, report=report, edges=[], prefix_order=False, error='', lockscan_rc=rc)
-    lg = work + '/Gen/LockGraph.v'
-    if not os.path.exists(lg):
-        res['error'] = 'lockscan produced no output:\n' + report[-2000:]
+    st = _gen_cache.get(work)
+    if st is None:
+        shutil.rmtree(work, ignore_errors=True)
+        os.makedirs(work + '/Gen'); os.makedirs(work + '/Proofs')
+        ov = os.environ.get('VERIF_EXTRA_OVERLAY')
+        rc, report = run_lockscan(work + '/Gen', ov)
+        st = dict(rc=rc, report=report, compiled={}, reported=set(), gen_error='')
+        _gen_cache[work] = st
+        lg = work + '/Gen/LockGraph.v'
+        if not os.path.exists(lg):
+            st['gen_error'] = 'lockscan produced no output:\n' + report[-2000:]
+        else:
+            for fn in GEN_FILES:
+                rc2, out, _ = vlib.sh(['coqc', '-Q', '.', 'Cloak', 'Gen/' + fn], cwd=work, timeout=600)
+                if rc2 != 0:
+                    st['gen_error'] = 'generated file Gen/%s does not compile:\n%s' % (fn, out[-1500:])
+                    break
+    rc, report = st['rc'], st['report']
+    res = dict(ok=False, report=report, edges=[], prefix_order=False, error='', errors=[], lockscan_rc=rc, cycles=[])
+    if st['gen_error']:
+        res['error'] = st['gen_error'] if 'gen' not in st['reported'] else ''
+        res['errors'] = [('tools/lockscan', st['gen_error'])] if res['error'] else []
+        st['reported'].add('gen')
         return res
-    txt = open(lg).read()
+    txt = open(work + '/Gen/LockGraph.v').read()
     m = re.search(r'Definition server_lock_edges[^\n]*:= \[(.*?)\]\.', txt)
     edges = re.findall(r'\("([^"]+)", "([^"]+)"\)', m.group(1)) if m else []
     res['edges'] = edges
     res['prefix_order'] = ('userPanel.activeUsersM', 'userPanel.usageUpdateQueueM') in edges
     res['cycles'] = [ln for ln in report.splitlines() if ln.startswith('CYCLE')]
-    shutil.copy(vlib.COQ + '/Proofs/LockOrder.v', work + '/Proofs/LockOrder.v')
-    for f in ('Gen/LockGraph.v', 'Gen/Guards.v', 'Proofs/LockOrder.v'):
-        rc2, out, _ = vlib.sh(['coqc', '-Q', '.', 'Cloak', f], cwd=work, timeout=300)
-        if rc2 != 0:
-            res['error'] = 'generated obligation no longer provable (%s):\n%s\n%s' % (
-                f, out[-1500:], '\n'.join(res['cycles']))
-            return res
-    res['ok'] = rc == 0
+    failed = False
+    for rel in files:
+        closure = generated_closure(rel)
+        if closure is None:
+            msg = '%s.v depends on more than the generated files: it cannot be re-proved in a private copy' % rel
+            st['compiled'].setdefault(rel, msg)
+            closure = []
+        for f in closure:
+            if f in st['compiled']:
+                continue
+            os.makedirs(os.path.dirname('%s/%s.v' % (work, f)), exist_ok=True)
+            shutil.copy('%s/%s.v' % (vlib.COQ, f), '%s/%s.v' % (work, f))
+            rc2, out, _ = vlib.sh(['coqc', '-Q', '.', 'Cloak', f + '.v'], cwd=work, timeout=600)
+            msg = ''
+            if rc2 != 0:
+                lm = re.search(r'File "[^"]*", line (\d+)', out)
+                lemma = _lemma_at(f, int(lm.group(1))) if lm else None
+                msg = 'generated obligation no longer provable: lemma %s of %s.v does not hold of the terms ' \
+                      'tools/lockscan extracts from the source (coq/Gen/*.v re-generated%s):\n%s\n%s' % (
+                          lemma or '?', f, ' with the overlay ' + os.environ['VERIF_EXTRA_OVERLAY']
+                          if os.environ.get('VERIF_EXTRA_OVERLAY') else '', out[-1500:], '\n'.join(res['cycles']))
+            st['compiled'][f] = msg
+        bad = [f for f in (closure or [rel]) if st['compiled'].get(f)]
+        if bad:
+            failed = True
+            f = bad[0]
+            if f not in st['reported']:
+                st['reported'].add(f)
+                res['errors'].append((f, st['compiled'][f]))
     if rc != 0:
-        res['error'] = 'lockscan reported constructs it does not understand:\n' + report[-2000:]
+        failed = True
+        if 'rc' not in st['reported']:
+            st['reported'].add('rc')
+            res['errors'].append(('tools/lockscan', 'lockscan reported constructs it does not understand:\n' + report[-2000:]))
+    res['ok'] = not failed
+    if res['errors']:
+        res['error'] = res['errors'][0][1]
     return res
 
 
